@@ -290,6 +290,12 @@ func (m *clm) occur(o *decl.Opt, arg *string, at, span int, tok string) bool {
 		m.res.Occs[o] = append(m.res.Occs[o], Occ{Arg: &a})
 		return true
 	}
+	if o.Type == decl.TFunc0E {
+		// the harness callback of this type always returns an error: the call happens, its error fails the parse
+		m.res.Occs[o] = append(m.res.Occs[o], Occ{})
+		m.fault(&Fault{Type: flags.ErrMarshal, Opt: o, Token: tok, At: at, Span: span})
+		return false
+	}
 	if len(o.Choices) > 0 && o.Type.IsFlag() {
 		// a flag restricted to choices: the documentation does not say what that means
 		m.res.Unspecified = append(m.res.Unspecified, "flag-with-choices")
